@@ -129,6 +129,20 @@ DecInv ==
 ASSUME \A pat \in {<<1>>, <<1, 2>>, <<1, 2, 1>>, <<1, 1, 2, 3>>} :
          \A m \in 1..9, len \in 1..7, dd \in 1..9 : PeriodLemma(pat, m, len, dd)
 
+\* large literal-only streams: the closed form (period 9 body) agrees with the decoder machine, at the
+\* real formats, bare and behind a 4-byte wrapper, for every n up to 20, every truncation, and a
+\* corrupted byte is never mistaken for a literal stream
+LitPats == { <<1, 2, 3, 4, 5, 6, 7, 8>>, <<9, 9, 9, 9, 9, 9, 9, 9>>, <<0, 1, 0, 1, 0, 1, 0, 1>> }
+ASSUME \A F \in {LZ10, LZ11}, pat \in LitPats, n \in 1..20, off \in {0, 4} :
+         LET e == Encode(F, [i \in 1..n |-> Lit(PIn(pat, i))])
+             w == IF off = 0 THEN e ELSE Wrap(1, 2, 3, e)
+         IN /\ IsLitStream(F, w, off, pat, n) /\ LitLemma(F, w, off, pat, n)
+            /\ \A k \in (off + 4)..(Len(w) - 1) :
+                  LET c == SubSeq(w, 1, k) IN IsLitTrunc(F, c, off, pat, n) /\ LitLemma(F, c, off, pat, n)
+            /\ \A k \in (off + 1)..Len(w) :
+                  LET c == [w EXCEPT ![k] = (@ + 1) % 256] IN
+                  ~IsLitStream(F, c, off, pat, n) /\ (k > off + 4 => ~IsLitTrunc(F, c, off, pat, n))
+
 \* every step makes progress, so every run ends in a terminal class (DStep is
 \* total on non-terminal states: no stuck state other than done/err/open)
 Progress == [][(ph = "dec" /\ ph' = "dec") =>
